@@ -246,7 +246,7 @@ def run(ctx):
                 else:
                     big.loads.append({"kind": "c", "term": ["fy", "fx", "mz"][k % 3], "local": k % 4 != 0, "bar": b["id"], "t": Fr(k % 1000, 1000), "v": Fr(1000 * bi + k + 1)})
         btext = L.layout(rng, big, plain=True)
-        nread = 8 if ctx.tier == "quick" else 12
+        nread = 8 if ctx.tier == "quick" else 16
         for o in S.run_pipeline(ctx, [{"Text": btext, "ParseOnly": True, "Isolate": j % 2 == 1} for j in range(nread)]):
             fails = expect(big, o)
             if fails:
@@ -255,7 +255,13 @@ def run(ctx):
                                   {"text": btext[:2000] + "\n...", "failures": fails[:10], "how": "tools: G.gen_chain with %d generated load lines per bar, read %d times" % (per, nread)})
                 concrete += 1
                 break
-        ctx.coverage["long_load_sections"] = {"load_lines": len(big.loads), "reads": nread}
+        # (whether a slip in a reader that works on many lines at a time shows in the values is a matter of scheduling: the same text once
+        # under Go's race detector - supporting evidence, a detector)
+        from . import C08
+        before = len(ctx.violations)
+        raced = C08.race_on(ctx, ["pre", "x.inkfem"], {"x.inkfem": btext}, "a definition with %d load lines" % len(big.loads))
+        concrete += len(ctx.violations) - before
+        ctx.coverage["long_load_sections"] = {"load_lines": len(big.loads), "reads": nread, "race_detector_runs": raced}
     # write / read round trip through the implementation
     outs2 = S.run_pipeline(ctx, [{"Text": o["DefText"], "ParseOnly": True} for t, o in back])
     rt = 0
